@@ -224,6 +224,15 @@ def check(ctx):
     for rule, key, ok, where, what, detail in sub.got:
         if rule == 'R8.7-pure-evaluation' and key in ('methods', 'module-state'):
             ctx.ob('R4.4-rate-laws', '%s/%s' % (rule, key), ok, where, what, detail)
+    # "S" in dx/dt = S * rate (resp. the net stoichiometry of the master equation) is built from the reaction list with multiplicity, a
+    # species on both sides cancelling by count (C03 R3.1 / R3.3) - re-emitted here
+    sub = SubCtx(ctx)
+    c03.check_accumulation(sub)
+    c03.check_matrices(sub)
+    c03.check_constructor_reactions(sub)
+    for rule, key, ok, where, what, detail in sub.got:
+        if rule in ('R3.1-accumulation', 'R3.3-matrix-fill'):
+            ctx.ob('R4.5-stoichiometry', '%s/%s' % (rule, key), ok, where, what, detail)
     ctx.floor('R4.4-rate-laws', 57)
     ctx.floor('R4.1-rhs', 1)
     ctx.floor('R4.3-odeint-call', 3)
